@@ -6,10 +6,12 @@ import os
 
 import numpy as np
 
-from checks.c09 import check_spatial, check_time, core_topologies, distinct_orders, screen_margin
+from checks.c09 import (check_spatial, check_time, core_topologies, distinct_orders, scale_inputs, scale_lists, scale_nmax, scale_sig,
+                        screen_margin)
 from mc import alphabets as A
 from mc.harness import Result, Sub, digest
 from mc.ref import boo as B
+from mc.ref import c10x as X2
 from mc.ref.base import close, maxdiff, mk_snaps, pair_table, write_neighbor_file, write_weight_file
 
 ASSUMPTIONS = [
@@ -29,6 +31,12 @@ ASSUMPTIONS = [
     "Re psi_j conj psi_i); equation (5) of the documentation is this gA column; bins holding a pair closer than 1e-9 to "
     "an edge are compared as intervals (gr) or skipped (gA)",
     "time_corr: equal timestep differences -> all time origins averaged, otherwise origin 0 only; C(0) == 1.0",
+    "Nmax below the largest coordination number (scale slice only): read_neighbors documents Nmax as 'the maximum number of neighboring particles to "
+    "consider'; the first Nmax listed neighbours and their weights are used (normalised by the sum of |weights| kept) - resolved towards the implementation",
+    "scale slice: inputs of 63..257 particles / 64..257 frames are compared with vectorised numpy references (mc/ref/c10x.py, mc/ref/c09x.py; they agree with the "
+    "loop references to 1e-14); placements with a periodic fractional pair component within 1e-9 of a half-cell tie or a pair within 1e-9 of a bin edge are "
+    "replaced by the next hash table; library-written Voronoi edge lengths may contain 0.000000 entries: accepted as long as the row sum of |weights| is positive",
+    "call sequences: a call on an object that has served other calls must return what the same call returns on a fresh object (rtol 1e-12)",
 ]
 
 LS = list(range(1, 13))
@@ -519,6 +527,238 @@ def run_history(case):
     return R
 
 
+# ------------------------------------------------------------------------------------------ C10.scale
+# A scale slice enumerates SIZES (particles, frames), not value assignments: one fixed value pattern per size and pattern row.
+SCALE_N = {"quick": [64, 65, 130, 257], "thorough": [63, 64, 65, 127, 128, 129, 130, 255, 256, 257]}
+SCALE_F = {"quick": [65, 129], "thorough": [64, 65, 129, 257]}
+SCALE_PAT = [
+    {"p": "g1", "src": "harness", "maxat": "first", "cell": "orthy", "F": 1, "l": 6, "w": "none", "nmax": "tight", "ppp": [1, 1], "steps": "even", "files": True},
+    {"p": "g2", "src": "harness", "maxat": "last", "cell": "trivar", "F": 3, "l": 4, "w": "ragged", "nmax": "above", "ppp": [1, 1], "steps": "even"},
+    {"p": "g3", "src": "harness", "maxat": "alt", "cell": "tri-", "F": 3, "l": 3, "w": "none", "nmax": "plus1", "ppp": [1, 0], "steps": "uneven", "fine": True},
+    {"p": "g4", "src": "harness", "maxat": "last", "cell": "orthy", "F": 1, "l": 12, "w": "ragged", "nmax": "below", "ppp": [1, 1], "steps": "even"},
+    {"p": "g5", "src": "harness", "maxat": "alt", "cell": "tri+", "F": 3, "l": 1, "w": "ragged", "nmax": "tight", "ppp": [0, 1], "steps": "even"},
+    {"p": "g6", "src": "harness", "maxat": "first", "cell": "trivar", "F": 3, "l": 6, "w": "none", "nmax": "below", "ppp": [1, 1], "steps": "even", "fine": True},
+    {"p": "nn", "src": "nnearest", "arg": 6, "cell": "trivar", "F": 3, "l": 6, "w": "none", "nmax": "tight", "ppp": [1, 1], "steps": "even"},
+    {"p": "cut", "src": "cutoff", "cell": "orthy", "F": 3, "l": 4, "w": "none", "nmax": "tight", "ppp": [1, 1], "steps": "uneven"},
+    {"p": "vorw", "src": "voronoi", "arg": "weighted", "cell": "tri+", "F": 3, "l": 6, "w": "file", "nmax": "tight", "ppp": [1, 1], "steps": "even"},
+    {"p": "vor", "src": "voronoi", "arg": "plain", "cell": "orthy", "F": 1, "l": 12, "w": "none", "nmax": "plus1", "ppp": [1, 1], "steps": "even"},
+    {"p": "g7", "src": "harness", "maxat": "last", "cell": "tri-", "F": 3, "l": 12, "w": "ragged", "nmax": "plus1", "ppp": [1, 1], "steps": "even", "tier": "thorough"},
+    {"p": "g8", "src": "harness", "maxat": "first", "cell": "orthy", "F": 3, "l": 3, "w": "ragged", "nmax": "below", "ppp": [1, 1], "steps": "uneven", "tier": "thorough"},
+    {"p": "nn1", "src": "nnearest", "arg": 1, "cell": "tri-", "F": 1, "l": 1, "w": "none", "nmax": "tight", "ppp": [1, 1], "steps": "even", "tier": "thorough"},
+    {"p": "cut2", "src": "cutoff", "cell": "trivar", "F": 3, "l": 12, "w": "none", "nmax": "above", "ppp": [1, 1], "steps": "even", "tier": "thorough"},
+]
+
+
+SCALE_DENSE = {"p": "dense", "src": "cutoff", "rc": "dense", "cell": "tri-", "F": 1, "l": 6, "w": "none", "nmax": "above", "ppp": [1, 1], "steps": "even"}
+
+
+def gen_scale(tier, seed):
+    for N in SCALE_N[tier]:
+        for pat in SCALE_PAT:
+            if pat.get("tier", tier) != tier:
+                continue
+            yield dict(pat, N=N, seed=seed, kind="particles")
+    yield dict(SCALE_PAT[0], N=1000, seed=seed, kind="particles")  # particle ids with four digits in the text files
+    yield dict(SCALE_DENSE, N=257, seed=seed, kind="particles")  # dense cutoff lists: ~130 neighbours per particle
+    if tier == "thorough":
+        yield dict(SCALE_DENSE, N=130, seed=seed, kind="particles", l=4, cell="orthy")
+    for F in SCALE_F[tier]:
+        for l, w, cell in ((6, "none", "trivar"), (4, "ragged", "orthy")):
+            yield {"p": "frames", "kind": "frames", "src": "harness", "maxat": "alt", "cell": cell, "F": F, "l": l, "w": w, "nmax": "tight",
+                   "ppp": [1, 1], "steps": "even", "N": 16, "seed": seed}
+
+
+def check_time_average_vec(R, sig, b, series, windows, dt, where):
+    """both averaging modes for every window length in `windows` (frames per window; period = w * 100 steps * dt as a decimal literal)"""
+    from fractions import Fraction
+
+    F, n = series.shape
+    elem = 0
+    for w in windows:
+        if not 1 <= w <= F - 1:
+            continue
+        period = float(Fraction(w) * 100 * Fraction(str(dt)))
+        for cplx in (True, False):
+            sg = dict(sig, average_complex=cplx, weven=(w % 2 == 0))
+            avg, ids = b.time_average(time_period=period, dt=dt, average_complex=cplx)
+            avg, ids = np.asarray(avg), np.asarray(ids)
+            rows = avg.shape[0]
+            if avg.ndim != 2 or avg.shape[1] != n or not 1 <= rows <= F - w + 1 or ids.shape != (rows,):
+                R.fail(f"time_average returned shape {avg.shape} / {ids.shape} for F={F}, window {w}: {where}", sub="C10.time_average", sig=dict(sg, clause="rows"))
+                continue
+            exp, ok = X2.ref_time_average(series, w, cplx)
+            exp, ok = exp[:rows], ok[:rows]
+            elem += int(ok.sum())
+            if not close(avg[ok], exp[ok]):
+                r = int(np.argwhere(~np.isclose(avg, exp, rtol=1e-9, atol=1e-11) & ok)[0][0])
+                R.fail(f"time-averaged row {r} of {rows} (window {w}, F={F}) differs from the window mean by {maxdiff(avg[ok], exp[ok]):.3e}: {where}",
+                       sub="C10.time_average", sig=dict(sg, clause="mean"))
+            if np.any(np.abs(ids.astype(float) - (np.arange(rows) + (w - 1) / 2.0)) > 0.5 + 1e-12):
+                R.fail(f"middle snapshot ids {ids[:4].tolist()}.. for window {w}: {where}", sub="C10.time_average", sig=dict(sg, clause="centre"))
+    return elem
+
+
+def scale_files(R, sig, b):
+    """optional output files of spatial_corr and time_corr equal the returned tables at the documented precision"""
+    import pandas as pd
+
+    n = 0
+    for name, call, sub in (("sp", lambda fn: b.spatial_corr(rdelta=0.27, outputfile=fn), "C10.spatial"), ("tc", lambda fn: b.time_corr(dt=0.002, outputfile=fn), "C10.time")):
+        fn = f"c10_sc_{name}.csv"
+        ret = call(fn)
+        tab = pd.read_csv(fn)
+        os.remove(fn)
+        n += ret.size
+        if list(tab.columns) != list(ret.columns) or tab.shape != ret.shape or not np.allclose(tab.values, ret.values.astype(float), rtol=0, atol=0.5000001e-8):
+            R.fail(f"{name} csv differs from the returned table beyond %.8f", sub=sub, sig=dict(sig, clause="file"))
+    return n
+
+
+def run_scale(case):
+    from PyMatterSim.static.boo import boo_2d
+
+    R = Result()
+    N, F, l, ppp = case["N"], case["F"], case["l"], case["ppp"]
+    sig = scale_sig(case)
+    inp = scale_inputs(case, d=2, tagp="c10")
+    if inp is None:
+        return R.screen()
+    Hs, frames, steps, width = inp
+    snaps = mk_snaps([f.tolist() for f in frames], np.array(Hs), [1] * N, steps=steps)
+    before = [s.positions.copy() for s in snaps.snapshots]
+    lst = scale_lists(case, snaps, frames, Hs, d=2, prefix="c10")
+    if lst is None:
+        return R.screen()
+    nfile, wfile, nls_file, wts_file = lst
+    nmax, maxcn = scale_nmax(case, nls_file)
+    nls, wts = X2.truncate(nls_file, wts_file, nmax)
+    b = boo_2d(snaps, l, nfile, weightsfile=wfile or "", ppp=np.array(ppp), Nmax=nmax)
+    ser = np.array([X2.ref_psi(frames[f], Hs[f], ppp, nls[f], l, wts[f] if wts is not None else None) for f in range(F)])
+    where = f"N={N} F={F} l={l} pattern {case['p']} (Nmax={nmax}, largest cn {maxcn})"
+    got = b.ParticlePhi
+    sub = "C10.weights" if wts is not None else "C10.psi"
+    if got.shape != ser.shape or got.dtype != np.complex128:
+        R.fail(f"ParticlePhi shape/dtype {got.shape} {got.dtype}: {where}", sub=sub, sig=dict(sig, clause="shape"))
+        return R
+    if not close(got, ser):
+        bad = np.argwhere(~np.isclose(got, ser, rtol=1e-9, atol=1e-11))[0]
+        R.fail(f"psi_l of frame {bad[0]} particle {bad[1]} (cn {len(nls[bad[0]][bad[1]])}) differs from the reference by {maxdiff(got, ser):.3e}: {where}",
+               sub=sub, sig=dict(sig, clause="psi"))
+        return R
+    if np.any(np.abs(got) > 1 + 1e-12):
+        R.fail(f"modulus exceeds one: {where}", sub="C10.modulus", sig=dict(sig, clause="modulus"))
+    el = ser.size
+    ref = X2.ref_spatial(frames, Hs, ppp, width, ser)
+    ref = {"r": ref["r"], "gr_lo": ref["gr"], "gr_hi": ref["gr"], "gA": ref["gA"], "amb": np.zeros(len(ref["r"]), bool)}
+    popl = check_spatial(R, sig, b.spatial_corr(rdelta=width), ref, False, sub="C10.spatial")
+    check_time(R, sig, b.time_corr(dt=0.002), ser, steps, 0.002, False, sub="C10.time")
+    el += F + 2 * len(ref["r"])
+    if case.get("files"):
+        el += scale_files(R, sig, b)
+    if F >= 2 and case["steps"] == "even":
+        windows = [1, 2] if case["kind"] == "particles" else [1, 2, 63, 64, 65, 127, 128, 129, F - 1]
+        el += check_time_average_vec(R, sig, b, ser, sorted(set(windows)), 0.002, where)
+    for s_, p0 in zip(snaps.snapshots, before):
+        if not np.array_equal(s_.positions, p0):
+            R.fail("snapshot positions modified", sub="C10.psi", sig=dict(sig, clause="input_modified"))
+    for fn in (nfile, wfile, "c10_sc_vor.overall.dat", "c10_sc_vor.edgelength.dat", "c10_sc_vor.neighbor.dat"):
+        if fn and os.path.exists(fn):
+            os.remove(fn)
+    R.outcome(got, nd=8)
+    cns = [len(x) for x in nls_file[0]]
+    R.nontrivial = bool(popl >= 2 and (len(set(cns)) >= 2 or case["src"] == "nnearest"))
+    R.elem = el
+    return R
+
+
+# ------------------------------------------------------------------------------------------ C10.sequence (E2 over call sequences)
+SEQ_LETTERS = [["ta", "0.2", True], ["ta", "0.2", False], ["ta", "0.4", True], ["ta", "0.4", False], ["sp", 0.5], ["sp", 0.3], ["tc", 0.002], ["tc", 0.5]]
+SEQ_TOPO = [
+    [[1, 2, 3, 4], [0, 2], [0, 1, 3], [2], [0, 5, 1], [4]],
+    [[5], [2, 0], [3], [0, 4, 5, 1, 2], [1, 3], [0, 2]],
+    [[3, 1], [0], [1, 0, 3, 5], [2, 0], [5], [4, 0, 2]],
+]
+
+
+def gen_sequence(tier, seed):
+    roots = [(6, "none", "trivar"), (4, "signed", "orth")] if tier == "quick" else [(6, "none", "trivar"), (4, "signed", "orth"), (1, "signed", "tri"), (12, "none", "tri2")]
+    for l, wmode, cell in roots:
+        for depth in (2, 3):
+            for a in range(len(SEQ_LETTERS)):
+                yield {"l": l, "wmode": wmode, "cell": cell, "first": a, "depth": depth, "seed": seed}
+
+
+def seq_build(case, which=0):
+    cell = case["cell"]
+    H = cell2("tri" if cell == "trivar" else cell)
+    Hc = [np.diag(np.diag(H)) + (H - np.diag(np.diag(H))) * (f if cell == "trivar" else 1.0) for f in (1.0, -1.0, 0.5, 1.0, -0.5)]
+    frames = [positions(case["seed"], 6, "cluster", Hc[f], tag=f"sq{which}{f}") for f in range(5)]
+    nls = [SEQ_TOPO[(f + which) % 3] for f in range(5)]
+    wmode = case["wmode"] if which == 0 else "two"
+    wts = None if wmode == "none" else [weights_for(nl, wmode) for nl in nls]
+    from PyMatterSim.static.boo import boo_2d
+
+    nf, wf = f"c10_sq{which}_nb.dat", f"c10_sq{which}_w.dat"
+    write_neighbor_file(nf, nls)
+    if wts is not None:
+        write_weight_file(wf, wts, header="id   cn   edgelengthlist")
+    snaps = mk_snaps(frames, np.array(Hc), [1] * 6, steps=[700 + 100 * f for f in range(5)])
+    l = case["l"] if which == 0 else (6 if case["l"] != 6 else 4)
+    return boo_2d(snaps, l, nf, weightsfile=wf if wts is not None else "", ppp=np.array([1, 1]), Nmax=5 + which)
+
+
+def seq_call(b, letter):
+    if letter[0] == "ta":
+        avg, ids = b.time_average(time_period=float(letter[1]), dt=0.002, average_complex=letter[2])
+        return [np.asarray(avg), np.asarray(ids, float)]
+    if letter[0] == "sp":
+        return [b.spatial_corr(rdelta=letter[1]).values.astype(float)]
+    if letter[0] == "tc":
+        return [b.time_corr(dt=letter[1]).values.astype(float)]
+    raise ValueError(letter)
+
+
+def same(a, b):
+    return len(a) == len(b) and all(x.shape == y.shape and np.allclose(x, y, rtol=1e-12, atol=1e-14, equal_nan=True) for x, y in zip(a, b))
+
+
+def run_sequence(case):
+    """Explicit-state search over call sequences on ONE boo_2d object (see C09.sequence): the result of every call must equal the result of
+    the same call on a fresh object whatever was called before; ParticlePhi must stay unchanged; a second live object must be unaffected."""
+    R = Result()
+    sig = {"wmode": case["wmode"], "cell": case["cell"]}
+    nL = len(SEQ_LETTERS)
+    fresh = {k: seq_call(seq_build(case), SEQ_LETTERS[k]) for k in range(nL)}
+    other = seq_build(case, which=1)
+    other_ref = [seq_call(other, SEQ_LETTERS[k]) for k in (1, 2, 4)]
+    p_other = other.ParticlePhi.copy()
+    a, depth = case["first"], case["depth"]
+    seqs = [(a, k) for k in range(nL)] if depth == 2 else [(a, k, m) for k in range(nL) for m in range(nL)]
+    states = transitions = 0
+    for seq in seqs:
+        b = seq_build(case)
+        p0 = b.ParticlePhi.copy()
+        states += 1
+        for pos_, k in enumerate(seq):
+            got = seq_call(b, SEQ_LETTERS[k])
+            transitions += 1
+            if not same(got, fresh[k]):
+                prev = [SEQ_LETTERS[j] for j in seq[:pos_]]
+                R.fail(f"{SEQ_LETTERS[k]} after {prev} on the same object differs from the same call on a fresh object", sub="C10.sequence",
+                       sig=dict(sig, clause="call_" + SEQ_LETTERS[k][0], after=[SEQ_LETTERS[j][0] for j in seq[:pos_]]), exp=fresh[k][0], obs=got[0])
+                break
+        if not np.array_equal(b.ParticlePhi, p0):
+            R.fail(f"calls {[SEQ_LETTERS[j] for j in seq]} modified the stored ParticlePhi", sub="C10.sequence", sig=dict(sig, clause="stored_modified"))
+    again = [seq_call(other, SEQ_LETTERS[k]) for k in (1, 2, 4)]
+    if not all(same(x, y) for x, y in zip(again, other_ref)) or not np.array_equal(other.ParticlePhi, p_other):
+        R.fail("a second boo_2d object alive during the sequences changed its results", sub="C10.sequence", sig=dict(sig, clause="other_object"))
+    R.states, R.transitions = states, transitions
+    R.elem = transitions
+    R.outcome([a, depth] + list(fresh[a]), nd=8)
+    R.nontrivial = True
+    return R
+
+
 # ------------------------------------------------------------------------------------------
 def subs(tier, seed):
     q = tier == "quick"
@@ -547,4 +787,18 @@ def subs(tier, seed):
                  "(linear/log, F=1), spatial_corr (frame mean), time_average for 5 periods x both average_complex modes; l in " + ("{1,6}" if q else "{1,2,4,6,12}")
                  + " x {orth,tri} x weights {none, signed}; non-trivial = >= 2 populated gA bins",
             bounds={"depth": [3, 4] if q else [4, 5]}),
+        Sub("C10.scale", gen_scale, run_scale,
+            rule="SIZE slice (enumerates sizes, ONE fixed value pattern per size and pattern row): N in " + str(SCALE_N[tier]) + " particles x "
+                 + str(len([p for p in SCALE_PAT if p.get("tier", tier) == tier])) + " pattern rows = ragged harness lists (cn 1..14, the maximum attained by the first / the last particle only, "
+                 "a particle with one neighbour, id 0 as a genuine neighbour, unsorted) and lists / edge-length weights written by the library's N-nearest, cutoff and Voronoi routines x "
+                 "l in {1,3,4,6,12} x signed weights per frame x Nmax {= max cn, +1, 30, max cn - 3 (truncation to the first Nmax entries)} x cells {orthogonal with shortest edge y, triclinic "
+                 "of either tilt sign, tilt changing per frame} x partial masks x F in {1,3} (positions, topology, weights, tilts change per frame; even / uneven steps); plus F in "
+                 + str(SCALE_F[tier]) + " frames of 16 particles with averaging windows 1, 2, 63..65, 127..129, F-1; every entry of psi_l, modulus, spatial_corr, time_corr, time_average (both "
+                 "modes) vs vectorised references (mc/ref/c10x.py); non-trivial = ragged lists and >= 2 populated gA bins",
+            bounds={"N": SCALE_N[tier], "F": SCALE_F[tier], "max_cn": 14}),
+        Sub("C10.sequence", gen_sequence, run_sequence,
+            rule="explicit-state search over call sequences on ONE boo_2d object (6 particles, 5 frames with changing topology / tilts): alphabet of 8 calls = time_average x "
+                 "{period 0.2, 0.4} x {average_complex True, False}, spatial_corr x {0.5, 0.3}, time_corr x {dt 0.002, 0.5}; all 64 ordered pairs and all 512 triples per root; every result "
+                 "must equal the same call on a fresh object, ParticlePhi must stay unchanged, a second live object (other l, files, configurations) must be unaffected",
+            bounds={"letters": 8, "depth": 3}),
     ]
